@@ -6,6 +6,19 @@ Three-way comparison on generated keys / RR sets:
   * dnspython (key_id, make_ds, _make_rrsig_signature_data) as the independent RFC implementation
 impl != dnspython  -> the property fails on the implementation: a failing input (VIOLATION)
 impl != model      -> the tie between model and code is broken (disagreement)
+
+RRSIG to-be-signed octets (`make_raw_rrsig`), three streams:
+  * random: RR sets of 1..6 related keys, field values over and beyond the wire ranges; the fields that are NOT part of the signed
+    data (Signature.ttl, key_identifier, signature_data) are drawn independently of those that are (ttl != original_ttl in most cases);
+  * one field at a time (`make_raw_rrsig_field`): around in-range base cases every field of the Signature and of one Key, and the key
+    set itself, is varied ALONE: a field of the RFC 4034 3.1.8.1 signed data (algorithm, labels, original TTL, expiration, inception,
+    key tag; key flags / protocol / algorithm / public key bit; key added / removed) must change the octets, every other field
+    (Signature.ttl, identifiers, signature octets, sub-second parts, the same instants under another tzinfo, Key.ttl, Key.key_tag
+    attribute, key order) must not -- both judged against dnspython and the model as well;
+  * environment independence (`make_raw_rrsig_tz`): a deterministic sub-sample of the random stream and probe instants (harness/envtz.py:
+    mid-January / mid-July, a +-1 h lattice around both DST switches of two years) are run with the PROCESS time zone switched
+    (lib.ProcessTZ) to each of lib.non_utc_zones(); the octets must equal dnspython's (computed from integers), the model's (instants
+    are integers there) and /repo's own under the unswitched zone.
 """
 
 from __future__ import annotations
@@ -15,12 +28,14 @@ import hashlib
 from datetime import timezone
 from typing import Any
 
+import envtz
 import lib
-from lib import Result, hexs, key_j, run_driver, run_impl, same_outcome, sig_j, us_dt
+from lib import Result, hexs, key_j, run_driver, run_impl, same_outcome, sig_j, us_dt, us_td
 
 ASSUMPTIONS = [
     "dnspython 2.8 is a correct independent implementation of RFC 4034 App. B, RFC 4509 and RFC 4034 §3.1.8.1/§6.3",
     "SHA-256 itself is not modelled: the model yields the DS digest *input*, the harness hashes it",
+    "the process time zone is switched with TZ + tzset (lib.ProcessTZ, which verifies that libc's localtime follows); zones are the four of lib.non_utc_zones()",
 ]
 TRUSTED = ["dnspython as RFC oracle in corr_C14"]
 
@@ -83,8 +98,11 @@ def run(tier: str, driver_ok: bool) -> Result:
     res.rule = (
         "generated keys (random / all-0xFF / carry-provoking octets, lengths 0..1025, odd and even), all accepted flag values, "
         "all 12 algorithm numbers, RSA exponents of 1..300 octets incl. the 3-octet length form, EC points with and without 0x04, "
-        "RR sets of 1..6 keys in shuffled order, RRSIG field values over and beyond their wire ranges; a case is non-trivial "
-        "when its canonical input is new (hash of the input line)"
+        "RR sets of 1..6 keys in shuffled order, RRSIG field values over and beyond their wire ranges with the unsigned fields (Signature.ttl, "
+        "identifier, signature octets) drawn independently of the signed ones; every Signature / Key field and the key set varied alone around "
+        "in-range bases (signed fields must change the octets, unsigned ones must not); make_raw_rrsig re-run with the process time zone "
+        "switched to America/New_York, Australia/Lord_Howe, Asia/Kolkata, Europe/Berlin on a sub-sample and on instants inside / outside "
+        "daylight saving time and +-1 h around the DST switches; a case is non-trivial when its canonical input is new (hash of the input line)"
     )
     r = lib.rng("C14")
     scale = 1 if tier == "quick" else 8
@@ -247,24 +265,57 @@ def run(tier: str, driver_ok: bool) -> Result:
         add("b64decode", {"op": "b64decode", "text": base64.b64encode(blob).decode()}, {"ok": None}, hexs(blob))
 
     # ---- RRSIG to-be-signed octets ----------------------------------------------------------
-    def mk_sig(alg: int, labels: int, ottl: int, exp_us: int, inc_us: int, tag: int, name: str = ".") -> Any:
+    def mk_sig(alg: int, labels: int, ottl: int, exp_us: int, inc_us: int, tag: int, name: str = ".", *, ttl: int | None = None, ident: str = "s",
+               data: bytes = b"", tzinfo: Any = None) -> Any:
+        exp, inc = us_dt(exp_us), us_dt(inc_us)  # aware UTC datetimes built from integers
+        if tzinfo is not None:  # the SAME instants, expressed with another (fixed-offset) tzinfo
+            exp, inc = exp.astimezone(tzinfo), inc.astimezone(tzinfo)
         return Signature.model_construct(
-            key_identifier="s",
-            ttl=ottl,
+            key_identifier=ident,
+            ttl=ottl if ttl is None else ttl,
             type_covered=TypeDNSSEC.DNSKEY,
             algorithm=AlgorithmDNSSEC(alg),
             labels=labels,
             original_ttl=ottl,
-            signature_expiration=us_dt(exp_us),
-            signature_inception=us_dt(inc_us),
+            signature_expiration=exp,
+            signature_inception=inc,
             key_tag=tag,
             signers_name=name,
-            signature_data=b"",
+            signature_data=data,
         )
 
-    nsets = 250 * scale
-    for i in range(nsets):
-        nkeys = r.randrange(1, 7)
+    def rfc_oracle(sig: Any, klist: list[Any]) -> Any:
+        """RFC 4034 3.1.8.1 / 6.3 by dnspython, from INTEGERS only (whole seconds = floor of the microsecond count; no datetime, no
+        time zone anywhere on this path).  None outside the wire ranges, for a non-root signer name, or when two keys share RDATA."""
+        f = sig_j(sig)
+        ottl, exp_us, inc_us, tag, labels = f["originalTtl"], f["expiration"], f["inception"], f["keyTag"], f["labels"]
+        in_range = 0 <= ottl < 2**32 and 0 <= exp_us // 10**6 < 2**32 and 0 <= inc_us // 10**6 < 2**32 and 0 <= tag < 65536 and 0 <= labels < 256 and exp_us >= 0 and inc_us >= 0
+        distinct_rdata = len({(k.flags, k.protocol, k.algorithm.value, base64.b64decode(k.public_key)) for k in klist}) == len(klist)
+        if not (in_range and distinct_rdata and f["signersName"] == "."):
+            return None
+        rrset = dns.rrset.RRset(root, dns.rdataclass.IN, dns.rdatatype.DNSKEY)
+        rrset.update_ttl(ottl)
+        for k in klist:
+            rrset.add(dns_key(k.flags, k.protocol, k.algorithm.value, base64.b64decode(k.public_key)), ttl=ottl)
+        rrsig = RRSIG(dns.rdataclass.IN, dns.rdatatype.RRSIG, dns.rdatatype.DNSKEY, f["algorithm"], labels, ottl, exp_us // 10**6, inc_us // 10**6, tag, root, b"")
+        try:
+            return {"ok": hexs(dns.dnssec._make_rrsig_signature_data(rrset, rrsig))}
+        except Exception:  # noqa: BLE001
+            return None
+
+    def rrsig_case(what: str, sig: Any, keyset: Any, klist: list[Any], tz: str | None = None, note: dict[str, Any] | None = None) -> Any:
+        """one make_raw_rrsig case: /repo (under the process zone `tz`), dnspython from integers, one line for the model"""
+        with envtz.zone(tz):
+            impl = run_impl(lambda: make_raw_rrsig(sig, keyset), hexs)
+        line: dict[str, Any] = {"op": "make_raw_rrsig", "sig": sig_j(sig), "keys": [key_j(k) for k in klist]}
+        if tz is not None:
+            line["tz"] = tz  # read by replay(); the model does not know about zones (instants are integers there)
+        if note:
+            line["note"] = note
+        add(what, line, impl, rfc_oracle(sig, klist))
+        return impl
+
+    def related_keys(nkeys: int) -> list[Any]:
         keys = []
         base = r.randbytes(r.choice([4, 20, 68, 132]))
         for j in range(nkeys):
@@ -283,8 +334,16 @@ def run(tier: str, driver_ok: bool) -> Result:
             flags = r.choice([256, 257, 385])
             alg = r.choice([8, 8, 10, 5])
             keys.append(mk_key(alg, flags, pk, ident=f"k{j}", tag=r.randrange(65536), ttl=r.choice([0, 3600, 172800])))
-        keyset = set(keys)
-        ottl = r.choice([0, 1, 3600, 172800, 2**31, 2**32 - 1])
+        return keys
+
+    TTLS = [0, 1, 3600, 172800, 2**31, 2**32 - 1]
+    nsets = 250 * scale
+    tz_rerun: list[tuple[Any, Any, list[Any], Any]] = []  # a deterministic sub-sample of this stream, re-run under every non-UTC zone
+    for i in range(nsets):
+        keyset = set(related_keys(r.randrange(1, 7)))
+        ottl = r.choice(TTLS)
+        # Signature.ttl (TTL of the RRSIG record itself) is NOT part of the signed data: drawn independently of the Original TTL
+        ttl = r.choice(TTLS + [ottl, 86400, -1, 2**32])
         exp_us = r.choice([0, 1, 10**6 - 1, 1262304000 * 10**6, (2**32 - 1) * 10**6, r.randrange(0, 2**32) * 10**6 + r.choice([0, 0, 1, 999999])])
         inc_us = r.choice([0, 1500000000 * 10**6, r.randrange(0, 2**32) * 10**6])
         tag = r.choice([0, 1, 19036, 20326, 65535])
@@ -302,23 +361,12 @@ def run(tier: str, driver_ok: bool) -> Result:
                 labels = r.choice([-1, 256, 1, 255])
             else:
                 inc_us = r.choice([-5 * 10**6, 2**32 * 10**6 + 1])
-        sig = mk_sig(salg, labels, ottl, exp_us, inc_us, tag)
+        sig = mk_sig(salg, labels, ottl, exp_us, inc_us, tag, ttl=ttl, ident=r.choice(["s", "k0", "", "ZSK-1"]), data=r.choice([b"", b"AAAA", b"not base64!"]))
         klist = list(keyset)
-        impl = run_impl(lambda: make_raw_rrsig(sig, keyset), hexs)
-        oracle = None
-        in_range = 0 <= ottl < 2**32 and 0 <= exp_us // 10**6 < 2**32 and 0 <= inc_us // 10**6 < 2**32 and 0 <= tag < 65536 and 0 <= labels < 256 and exp_us >= 0 and inc_us >= 0
-        distinct_rdata = len({key_to_rdata(k) for k in klist}) == len(klist)
-        if in_range and distinct_rdata:
-            rrset = dns.rrset.RRset(root, dns.rdataclass.IN, dns.rdatatype.DNSKEY)
-            rrset.update_ttl(ottl)
-            for k in klist:
-                rrset.add(dns_key(k.flags, k.protocol, k.algorithm.value, base64.b64decode(k.public_key)), ttl=ottl)
-            rrsig = RRSIG(dns.rdataclass.IN, dns.rdatatype.RRSIG, dns.rdatatype.DNSKEY, salg, labels, ottl, exp_us // 10**6, inc_us // 10**6, tag, root, b"")
-            try:
-                oracle = {"ok": hexs(dns.dnssec._make_rrsig_signature_data(rrset, rrsig))}
-            except Exception:  # noqa: BLE001
-                oracle = None
-        add("make_raw_rrsig", {"op": "make_raw_rrsig", "sig": sig_j(sig), "keys": [key_j(k) for k in klist]}, impl, oracle)
+        impl = rrsig_case("make_raw_rrsig", sig, keyset, klist)
+        res.bump("rrsig:ttl" + ("==" if ttl == ottl else "!=") + "original_ttl")
+        if i % 8 == 1:
+            tz_rerun.append((sig, keyset, klist, impl))
         # permutation invariance on the implementation: a re-ordered set object
         if i % 4 == 0 and "ok" in impl:
             shuffled = klist[:]
@@ -328,12 +376,116 @@ def run(tier: str, driver_ok: bool) -> Result:
                 res.violation("make_raw_rrsig depends on key order", {"sig": sig_j(sig), "keys": [key_j(k) for k in shuffled]}, key="order", impl=impl, impl_shuffled=impl2)
     add("make_raw_rrsig_name", {"op": "make_raw_rrsig", "sig": sig_j(mk_sig(8, 0, 1, 0, 0, 0, name="example.")), "keys": []}, run_impl(lambda: make_raw_rrsig(mk_sig(8, 0, 1, 0, 0, 0, name="example."), set()), hexs))
 
+    # ---- which fields are signed, which are not: every field varied ALONE around in-range base cases ------------------------
+    # RFC 4034 3.1.8.1: the signed data is RRSIG RDATA (type covered, algorithm, labels, original TTL, expiration, inception, key
+    # tag, signer's name) followed by the RRs with owner | type | class | ORIGINAL TTL | RDATA length | RDATA.  The TTL of the RRSIG
+    # record, the TTLs of the DNSKEY records, identifiers, the stated key-tag attribute of a Key, the signature octets and
+    # sub-second parts of the times are not in it.
+    for bi in range(12 * scale):
+        bkeys = related_keys(r.randrange(1, 5))
+        if len({key_to_rdata(k) for k in bkeys}) != len(bkeys):
+            continue
+        b = {"alg": r.choice([5, 8, 10, 13, 14]), "labels": r.choice([0, 0, 1, 200]), "ottl": r.choice([0, 3600, 172800, 2**31 + 5]),
+             "exp_us": r.randrange(2, 2**32 - 2) * 10**6, "inc_us": r.randrange(2, 2**32 - 2) * 10**6, "tag": r.randrange(1, 65535)}
+        b["ttl"] = b["ottl"] if bi % 2 else r.choice([t for t in TTLS if t != b["ottl"]])
+
+        def sig_with(**kw: Any) -> Any:
+            f = dict(b, **kw)
+            return mk_sig(f["alg"], f["labels"], f["ottl"], f["exp_us"], f["inc_us"], f["tag"], ttl=f["ttl"], ident=f.get("ident", "s"), data=f.get("data", b""), tzinfo=f.get("tzinfo"))
+
+        def keys_with(idx: int, **kw: Any) -> list[Any]:
+            out = []
+            for j, k in enumerate(bkeys):
+                if j == idx:
+                    f = {"alg": k.algorithm.value, "flags": k.flags, "pk": base64.b64decode(k.public_key), "protocol": k.protocol, "tag": k.key_tag, "ident": k.key_identifier, "ttl": k.ttl}
+                    f.update(kw)
+                    k = mk_key(f["alg"], f["flags"], f["pk"], protocol=f["protocol"], tag=f["tag"], ident=f["ident"], ttl=f["ttl"], validate=False)
+                out.append(k)
+            return out
+
+        base_impl = rrsig_case("make_raw_rrsig_field", sig_with(), set(bkeys), bkeys, note={"base": bi, "field": "(base)"})
+        ki = r.randrange(len(bkeys))
+        kpk = base64.b64decode(bkeys[ki].public_key)
+        bit = r.randrange(len(kpk) * 8)
+        flipped = bytearray(kpk)
+        flipped[bit // 8] ^= 0x80 >> (bit % 8)
+        off = timezone(us_td(r.choice([-43200, -18000, 3600, 19800, 37800, 50400]) * 10**6))
+        unsigned: list[tuple[str, Any, list[Any]]] = [
+            ("sig.ttl", sig_with(ttl=r.choice([t for t in TTLS + [86400, -1, 2**32] if t != b["ttl"]])), bkeys),
+            ("sig.ttl:=original_ttl+1", sig_with(ttl=b["ottl"] + 1), bkeys),
+            ("sig.key_identifier", sig_with(ident=r.choice(["other", "", "k0"])), bkeys),
+            ("sig.signature_data", sig_with(data=r.choice([b"QUJD", b"@@@@", b"x" * 300])), bkeys),
+            ("sig.expiration:sub-second", sig_with(exp_us=b["exp_us"] + r.choice([1, 500_000, 999_999])), bkeys),
+            ("sig.inception:sub-second", sig_with(inc_us=b["inc_us"] + r.choice([1, 500_000, 999_999])), bkeys),
+            ("sig.times:same-instants-other-tzinfo", sig_with(tzinfo=off), bkeys),
+            ("key.ttl", sig_with(), keys_with(ki, ttl=r.choice([1, 7200, 2**32 - 1]))),
+            ("key.key_tag-attribute", sig_with(), keys_with(ki, tag=(bkeys[ki].key_tag + 1) % 65536)),
+            ("key.key_identifier", sig_with(), keys_with(ki, ident="renamed")),
+            ("keys:order", sig_with(), list(reversed(bkeys))),
+        ]
+        signed: list[tuple[str, Any, list[Any]]] = [
+            ("sig.algorithm", sig_with(alg=r.choice([a for a in (5, 7, 8, 10, 13, 14, 15) if a != b["alg"]])), bkeys),
+            ("sig.labels", sig_with(labels=(b["labels"] + r.choice([1, 55])) % 256), bkeys),
+            ("sig.original_ttl", sig_with(ottl=b["ottl"] ^ (1 << r.randrange(32))), bkeys),
+            ("sig.original_ttl:=ttl", sig_with(ottl=b["ttl"]), bkeys) if b["ttl"] != b["ottl"] and 0 <= b["ttl"] < 2**32 else ("sig.original_ttl", sig_with(ottl=b["ottl"] + 1), bkeys),
+            ("sig.expiration", sig_with(exp_us=b["exp_us"] + r.choice([-1, 1, 3600, -3600, 86400]) * 10**6), bkeys),
+            ("sig.expiration:bit", sig_with(exp_us=((b["exp_us"] // 10**6) ^ (1 << r.randrange(32))) * 10**6), bkeys),
+            ("sig.inception", sig_with(inc_us=b["inc_us"] + r.choice([-1, 1, 3600, -3600, 86400]) * 10**6), bkeys),
+            ("sig.inception:bit", sig_with(inc_us=((b["inc_us"] // 10**6) ^ (1 << r.randrange(32))) * 10**6), bkeys),
+            ("sig.expiration<->inception", sig_with(exp_us=b["inc_us"], inc_us=b["exp_us"]), bkeys) if b["inc_us"] != b["exp_us"] else ("sig.labels", sig_with(labels=b["labels"] ^ 1), bkeys),
+            ("sig.key_tag", sig_with(tag=b["tag"] ^ (1 << r.randrange(16))), bkeys),
+            ("key.flags", sig_with(), keys_with(ki, flags=r.choice([f for f in (256, 257, 385) if f != bkeys[ki].flags]))),
+            ("key.protocol", sig_with(), keys_with(ki, protocol=r.choice([0, 2, 255]))),
+            ("key.algorithm", sig_with(), keys_with(ki, alg=r.choice([a for a in (5, 8, 10) if a != bkeys[ki].algorithm.value]))),
+            ("key.public_key:bit", sig_with(), keys_with(ki, pk=bytes(flipped))),
+            ("keys:one-removed", sig_with(), bkeys[:ki] + bkeys[ki + 1 :]),
+            ("keys:one-added", sig_with(), bkeys + [mk_key(8, 256, r.randbytes(40), ident="extra")]),
+        ]
+        for must_differ, group in ((False, unsigned), (True, signed)):
+            for fname, vsig, vkeys in group:
+                vset: Any = vkeys if fname == "keys:order" else set(vkeys)  # a list is visited in exactly the listed order
+                vi = rrsig_case("make_raw_rrsig_field", vsig, vset, vkeys, note={"base": bi, "field": fname, "signed": must_differ})
+                res.bump(("rrsig-field:signed:" if must_differ else "rrsig-field:not-signed:") + fname)
+                if "ok" not in base_impl or "ok" not in vi:
+                    continue  # judged against dnspython / the model by the common loop
+                if must_differ and vi == base_impl:
+                    res.violation("make_raw_rrsig: changing a signed field / the key set leaves the to-be-signed octets unchanged", lines[-1], key="signed-field:" + fname.split(":")[0], impl=vi, field=fname)
+                if not must_differ and vi != base_impl:
+                    res.violation("make_raw_rrsig: a field that is not part of the RFC 4034 signed data changes the to-be-signed octets", lines[-1], key="unsigned-field:" + fname.split(":")[0], impl=vi, base=base_impl, field=fname)
+
+    # ---- environment independence: the same octets whatever the time zone of the process ------------------------------------
+    # (a) the sub-sample of the stream above; (b) instants inside and outside each zone's daylight-saving period (mid-January, mid-July)
+    # and on a +-1 h lattice around both DST switches of a year (and around the instants whose UTC fields, read as local time, hit the
+    # switch).  Oracle and model work on integers; /repo's octets must equal theirs and its own under UTC.
+    for zname, _posix, _off in lib.non_utc_zones():
+        jobs: list[tuple[Any, Any, list[Any], Any, dict[str, Any]]] = [(sig, keyset, klist, impl, {"stream": "re-run"}) for sig, keyset, klist, impl in tz_rerun]
+        for year in (2030, r.choice([y for y in envtz.YEARS if y != 2030])):
+            pts = envtz.sample(zname, year, r, 16 if tier == "quick" else 10**6)
+            for pi, p in enumerate(pts):
+                q = pts[(pi * 7 + 3) % len(pts)]  # the other time field: another probe instant of the zone ...
+                exp_s = q["t"] if pi % 3 == 0 else p["t"] + r.choice([21, 15, 180]) * 86400  # ... or a validity period later
+                ks = related_keys(r.randrange(1, 4))
+                sig = mk_sig(r.choice([8, 10, 13]), 0, r.choice([3600, 172800]), min(exp_s, 2**32 - 1) * 10**6 + r.choice([0, 0, 999_999]), p["t"] * 10**6 + r.choice([0, 0, 1]), r.randrange(65536), ttl=r.choice([3600, 172800]))
+                utc_impl = run_impl(lambda: make_raw_rrsig(sig, set(ks)), hexs)
+                jobs.append((sig, set(ks), ks, utc_impl, {"stream": "instants", "inception": p["label"], "dst_at_inception": p["dst"], "utc_offset_at_inception": p["offset"], "year": year}))
+                # the same pair of instants with the roles swapped (expiration inside the probed period)
+                sig2 = mk_sig(8, 0, 172800, p["t"] * 10**6, max(p["t"] - 21 * 86400, 0) * 10**6, r.randrange(65536))
+                jobs.append((sig2, set(ks), ks, run_impl(lambda: make_raw_rrsig(sig2, set(ks)), hexs), {"stream": "instants", "expiration": p["label"], "dst_at_expiration": p["dst"], "utc_offset_at_expiration": p["offset"], "year": year}))
+        with envtz.zone(zname):
+            for sig, keyset, klist, utc_impl, note in jobs:
+                impl = rrsig_case("make_raw_rrsig_tz", sig, keyset, klist, tz=zname, note=note)
+                res.bump("rrsig-tz:" + zname)
+                if note["stream"] == "instants":
+                    res.bump("rrsig-tz:instant-" + ("inside" if note.get("dst_at_inception", note.get("dst_at_expiration")) else "outside") + "-daylight-saving-time")
+                if impl != utc_impl:
+                    res.violation("make_raw_rrsig: the to-be-signed octets depend on the time zone of the process", lines[-1], key="tz:" + zname, impl=impl, impl_under_utc=utc_impl)
+
     # ---- evaluate -------------------------------------------------------------------------
     model: list[Any] = run_driver(lines) if driver_ok else [None] * len(lines)
     for (what, case, impl, oracle), m in zip(expect, model):
         res.count(case)
         res.bump(what)
-        res.sample({"what": what, "input": case, "impl": impl, "model": m, "oracle": oracle}, limit=6) if what in ("key_tag", "make_raw_rrsig", "rsa_decode", "as_revoked", "ecdsa_without_prefix", "ds_input") and res.stats[what] == 1 else None
+        res.sample({"what": what, "input": case, "impl": impl, "model": m, "oracle": oracle}, limit=6) if what in ("key_tag", "make_raw_rrsig", "make_raw_rrsig_tz", "rsa_decode", "as_revoked", "ecdsa_without_prefix", "ds_input") and res.stats[what] == 1 else None
         # special shapes
         if what in ("b64encode", "b64decode"):
             if m is not None and m != oracle:
@@ -372,7 +524,23 @@ def run(tier: str, driver_ok: bool) -> Result:
 def replay(obj: dict[str, Any]) -> Any:
     v = obj.get("violation") or obj.get("disagreement") or {}
     case = v.get("case")
-    out: dict[str, Any] = {"case": case, "recorded": {k: v.get(k) for k in ("impl", "model", "expected")}}
+    out: dict[str, Any] = {"case": case, "recorded": {k: v.get(k) for k in ("impl", "model", "expected", "impl_under_utc", "base", "field")}}
     if isinstance(case, dict) and "op" in case:
         out["model_now"] = run_driver([case])[0]
+    if isinstance(case, dict) and case.get("op") == "make_raw_rrsig":
+        # the implementation now, under the recorded process time zone
+        from kskm.common.data import AlgorithmDNSSEC, Key, Signature, TypeDNSSEC
+        from kskm.common.signature import make_raw_rrsig
+
+        f = case["sig"]
+        sig = Signature.model_construct(
+            key_identifier=f["keyIdentifier"], ttl=f["ttl"], type_covered=TypeDNSSEC(f["typeCovered"]), algorithm=AlgorithmDNSSEC(f["algorithm"]), labels=f["labels"],
+            original_ttl=f["originalTtl"], signature_expiration=us_dt(f["expiration"]), signature_inception=us_dt(f["inception"]), key_tag=f["keyTag"],
+            signers_name=f["signersName"], signature_data=f["signatureData"].encode("utf-8", "surrogateescape"),
+        )
+        keys = [Key.model_construct(key_identifier=k["keyIdentifier"], key_tag=k["keyTag"], ttl=k["ttl"], flags=k["flags"], protocol=k["protocol"], algorithm=AlgorithmDNSSEC(k["algorithm"]),
+                                    public_key=k["publicKey"].encode("utf-8", "surrogateescape")) for k in case["keys"]]
+        with envtz.zone(case.get("tz")):
+            out["implementation_now"] = run_impl(lambda: make_raw_rrsig(sig, keys), hexs)  # type: ignore[arg-type]
+        out["process_time_zone"] = case.get("tz") or "(unchanged)"
     return out
